@@ -608,7 +608,7 @@ func (cl *compiler) compileCallExpr(call *ast.CallExpr) {
 	if expr != nil {
 		cl.compileExpr(expr)
 	}
-	if cl.compileNativeCall(key, variadic, expr, call.Args) {
+	if cl.compileNativeCall(key, variadic, call.Fun, call.Args) {
 		return
 	}
 	if cl.compileCall(key, sig, call.Args) {
